@@ -3,8 +3,8 @@ package engine
 import (
 	"fmt"
 	"math"
-	"path/filepath"
 	"math/rand/v2"
+	"path/filepath"
 	"strconv"
 	"strings"
 
